@@ -200,7 +200,8 @@ PruneUp(t, q) ==
        THEN PruneUp(RemoveSubtree(t, q), NodeParent(q))
        ELSE PruneUp(t, NodeParent(q))
 
-DeleteAt(t, p) == PruneUp(RemoveSubtree(t, p), NodeParent(p))
+DeleteAt(t, p) == IF p = << >> THEN RemoveSubtree(t, p)
+                  ELSE PruneUp(RemoveSubtree(t, p), NodeParent(p))
 
 ----------------------------------------------------------------------------
 (* GetNode on a fully keyed path: the set of values found (0 or 1).         *)
